@@ -440,3 +440,114 @@ def c01_pipe_jobs(tier, seed):
                 jobs.append(dict(harness='c01_pipe', label=f'{name} holes={sizes} cfg={cname}',
                                  params=dict(tpl=instantiate(tpl, sizes), cfg=cfg, wrapper='wrapper' in name)))
     return jobs
+
+
+# ---------------------------------------------------------------- C06 marker / skip / tag-name decision
+def expect_identity(ctx, src, out, why, role):
+    ctx.check(len(out) == len(src) and b_and(same(a, b) for a, b in zip(src, out)), why, role)
+
+
+def expect_exact(ctx, out, exp, why, role):
+    ctx.check(len(out) == len(exp) and b_and(same(a, b) for a, b in zip(exp, out)), why, role)
+
+
+@harness('c06_decision', covers=['value-is-member', 'value-not-member', 'prefix-of-target', 'empty-target-set', 'skip-attribute',
+                                 'keyword-inside-value', 'unregistered-name', 'registered-name'])
+def c06_decision(ctx, p):
+    mode = p['mode']
+    ds, de = [60], [62]
+    q = p.get('quote', "'")
+    if mode == 'membership':
+        # targets: 0..2 symbolic strings; name value: symbolic string; ready <=> value is a member, byte for byte
+        targets = [ctx.bytes(f't{i}', k) for i, k in enumerate(p['targets'])]
+        val = ctx.bytes('val', p['val'], exclude=(ord(q), 62))
+        cfg = base_cfg(targets=targets)
+        src = list(b"A<m name=" + q.encode()) + val + list(q.encode() + b">q</m>B")
+        member = b_or(bytes_eq(val, t) for t in targets)
+        if not targets:
+            ctx.cover('empty-target-set')
+        for t in targets:
+            if len(t) > len(val):
+                cover_if(ctx, 'prefix-of-target', bytes_eq(val, t[:len(val)]))
+            elif len(t) < len(val):
+                cover_if(ctx, 'prefix-of-target', bytes_eq(val[:len(t)], t))
+        out = ctx.impl.clean(src, ds, de, cfg)
+        if ctx.branch(member):
+            ctx.cover('value-is-member')
+            expect_exact(ctx, out, list(b"AB"), 'name value is a member of the target set but the element was not removed', 'member-not-removed')
+        else:
+            ctx.cover('value-not-member')
+            expect_identity(ctx, src, out, 'name value is not a member of the target set but the source changed', 'non-member-removed')
+    elif mode == 'no-value':
+        # missing or valueless name attribute, target set arbitrary (may contain the empty string)
+        targets = [ctx.bytes(f't{i}', k) for i, k in enumerate(p['targets'])]
+        cfg = base_cfg(targets=targets)
+        src = list(("A<m " + p['attrs'] + ">q</m>B").encode())
+        out = ctx.impl.clean(src, ds, de, cfg)
+        ctx.cover('value-not-member')
+        expect_identity(ctx, src, out, 'element without a name value was removed', 'valueless-name-removed')
+    elif mode == 'skip':
+        # `skip` as a bare attribute at position pos among n attributes; condition satisfied; a ready child inside
+        attrs = list(p['attrs'])
+        attrs.insert(p['pos'], 'skip')
+        sep = [ctx.bytes(f's{i}', 1, only=(32, 10)) for i in range(len(attrs))]
+        tag = list(p['tag'].encode())
+        src = list(b"A<") + tag
+        for s, a in zip(sep, attrs):
+            src += s + list(a.encode())
+        src += list(b">k<t " + EXPIRED.encode() + b">c</t>e</") + tag + list(b">B")
+        cfg = base_cfg()
+        ctx.cover('skip-attribute')
+        out = ctx.impl.clean(src, ds, de, cfg)
+        exp = src[:src.index(62) + 2] + list(b"e</") + tag + list(b">B")  # only the ready child disappears
+        expect_exact(ctx, out, exp, 'element marked skip must stay (tags included) while its ready child is removed', 'skip-ignored-or-child-not-processed')
+    elif mode == 'keyword-in-value':
+        # the words skip / unwrap-block inside a quoted value have no effect: element is ready and removed as a range
+        pre = ctx.bytes('pre', p.get('pre', 1), exclude=(ord(q), 62))
+        post = ctx.bytes('post', p.get('post', 1), exclude=(ord(q), 62))
+        src = list(b"A\n<m name='x' c=" + q.encode()) + pre + list(p['word'].encode()) + post + list(q.encode() + b">\n1\n2\n3\n</m>\nB\n")
+        ctx.cover('keyword-inside-value')
+        out = ctx.impl.clean(src, ds, de, base_cfg())
+        expect_exact(ctx, out, list(b"A\nB\n"), f"the word {p['word']} inside a quoted value changed the decision / strategy", 'keyword-in-value-has-effect')
+    elif mode == 'tagname':
+        nm = ctx.bytes('nm', p['n'], exclude=(32, 10, 9, 61, 34, 39, 47, 60, 62))
+        src = list(b"A<") + nm + list(b" name='x' " + EXPIRED.encode() + b">q</") + nm + list(b">B")
+        out = ctx.impl.clean(src, ds, de, base_cfg())
+        reg = b_or([bytes_eq(nm, [109]), bytes_eq(nm, [116])])
+        if ctx.branch(reg):
+            ctx.cover('registered-name')
+            expect_exact(ctx, out, list(b"AB"), 'element with a configured tag name and satisfied condition not removed', 'registered-not-removed')
+        else:
+            ctx.cover('unregistered-name')
+            expect_identity(ctx, src, out, 'element whose tag name is not configured was removed', 'unregistered-removed')
+    else:
+        raise KeyError(mode)
+
+
+def c06_jobs(tier, seed):
+    jobs = []
+    J = lambda label, **p: jobs.append(dict(harness='c06_decision', label=label, params=p))
+    vmax = 2 if tier == 'quick' else 3
+    tsets = [[], [1], [2], [1, 1], [1, 2], [2, 2], [0], [0, 1]] + ([[3], [2, 3], [1, 1, 1], [3, 3]] if tier != 'quick' else [])
+    for ts in tsets:
+        for v in range(0, vmax + 1):
+            for q in ("'", '"'):
+                if q == '"' and (len(ts) > 1 or v == 0) and tier == 'quick':
+                    continue
+                J(f'membership targets={ts} |value|={v} quote={q}', mode='membership', targets=ts, val=v, quote=q)
+    for attrs in ('name', 'x', "nam='x'", "name2='x'", "name y='1'", ''):
+        for ts in ([], [1], [0], [0, 1]):
+            J(f'no-value attrs={attrs!r} targets={ts}', mode='no-value', attrs=attrs, targets=ts)
+    base_attrs = {'m': ["name='x'", "a='1'", 'b'], 't': [EXPIRED, "a='1'", 'b']}
+    for tag in ('m', 't'):
+        for n in range(1, 4):
+            for pos in range(0, n + 1):
+                J(f'skip tag={tag} attrs={n} pos={pos}', mode='skip', tag=tag, attrs=base_attrs[tag][:n], pos=pos)
+    for w in ('skip', 'unwrap-block', ' skip ', "skip='1'", ' unwrap-block'):
+        for q in ("'", '"'):
+            if q in w:
+                continue
+            J(f'keyword-in-value {w!r} quote={q}', mode='keyword-in-value', word=w, quote=q, pre=1 if tier == 'quick' else 2, post=1)
+    for n in (1, 2) + ((3,) if tier != 'quick' else ()):
+        J(f'tagname |name|={n}', mode='tagname', n=n)
+    return jobs
